@@ -468,8 +468,17 @@ def validate(ctx, prog, ch, idx, pnames, src_ty, K):
                 used |= acc
     carried = sorted(used)
     all_vars = state_vars(ch)
-    # a result variable that is only assigned on the way out of the loop is loop-invariant inside it
-    ret_carried = ch.consumer in ("count", "fold", "rfold", "find_map")
+    # which state variables does the schema itself carry around the loop?  (a variable only assigned on the way out
+    # of the loop - the result of find/all/next.., a counter in front of an always-breaking consumer - is invariant)
+    V0 = {n: ("L", -1 - i) for i, (n, _) in enumerate(all_vars)}
+    carried_names = set()
+    for r in reference(ch, V0, src_ty, K):
+        if r.kind == "back":
+            carried_names |= {k for k, v in r.upd.items() if v != V0[k]}
+    ret_carried = "RET" in carried_names
+    if any(n != "RET" and n not in carried_names for n, _ in all_vars if n != "ITER"):
+        ctx.instance("TV-SKIP", key, nontrivial=False, sample={"chain": key, "why": "a counter is never carried around the loop (always-breaking consumer)"})
+        return True
     exp_vars = [(n, i) for n, i in all_vars if n != "RET" or ret_carried]
     if len(carried) != len(exp_vars):
         ctx.violation("TV", key + "|state", "chain %s: generated loop carries %d state variables, the reference schema has %d (%s)" % (
